@@ -17,5 +17,5 @@ CONSTANTS
   MaxOps = 14
   Deterministic = TRUE
   Manual = FALSE
-INVARIANTS TypeOK ReadStreamIsRetainedSuffix ReadStateIsRefPage PaginationEnumerates PageAfterCursor
+INVARIANTS TypeOK ReadStreamIsRetainedSuffix ReadStateIsRefPage PageAfterCursor
 CHECK_DEADLOCK FALSE
